@@ -7,6 +7,13 @@ from . import sbcrun, structures
 from .common import rng_for
 
 
+LIMIT_S = 600
+
+
+class _TimeLimit(BaseException):
+    """not an Exception: the handlers inside classify_record must not swallow it"""
+
+
 def dim_enc(d):
     return -1 if d is None else int(d)
 
@@ -24,7 +31,10 @@ def classify_record(atoms, params=None):
         table = float(ref_radii.split(":")[1]) * np.array(_cov)
         params["radii"] = table
         ref_radii = table[atoms.get_atomic_numbers()]
-    rec = {"n": len(atoms), "error": "", "cls": "", "cls_again": "", "cls_hist": "", "untouched": True, "has_cell": False, "basis": [],
+    if isinstance(params.get("pos_tol"), str) and params["pos_tol"].startswith("array:"):
+        params["pos_tol"] = np.array([float(x) for x in params["pos_tol"].split(":")[1].split(",")])
+    params0 = {k: (v.copy() if isinstance(v, np.ndarray) else v) for k, v in params.items()}
+    rec = {"n": len(atoms), "error": "", "cls": "", "cls_again": "", "cls_hist": "", "cls_same_object": "", "params_untouched": True, "untouched": True, "has_cell": False, "basis": [],
            "outliers": [], "region_known": False, "region": {"has": False, "nbasis": 0, "is2d": False, "nconn": 0}}
     min_cov = params.get("min_coverage", 0.5)
     fr = Fraction(str(min_cov))
@@ -76,6 +86,14 @@ def classify_record(atoms, params=None):
             rec["cls_again"] = type(Classifier(**params).classify(atoms)).__name__
         except Exception as e:
             rec["cls_again"] = "raised " + type(e).__name__
+        # "repeated calls give the same class": the same classifier object, the same input, twice more
+        try:
+            again = [type(clf.classify(atoms)).__name__ for _ in range(2)]
+            rec["cls_same_object"] = again[0] if again[0] == again[1] else "%s then %s" % tuple(again)
+        except Exception as e:
+            rec["cls_same_object"] = "raised " + type(e).__name__
+        # parameters handed over as arrays are the caller's: unchanged afterwards
+        rec["params_untouched"] = bool(all(np.array_equal(v, params0[k]) for k, v in params.items() if isinstance(v, np.ndarray)))
         # history: one classifier object that classified the same geometry under another pbc pattern just before
         try:
             warm = Classifier(**params)
@@ -134,7 +152,23 @@ def execute_c17(job):
     rng = rng_for("c17", kind, sorted(desc.items()))
     if opt.get("rigid"):
         atoms, _ = structures.rigid(atoms, rng)
-    rec = classify_record(atoms, params)
+    # a classification of <= 150 atoms takes seconds; one that has not returned after 15 minutes has not "returned normally"
+    import signal
+
+    def _alarm(signum, frame):
+        raise _TimeLimit("no result within %d s" % LIMIT_S)
+
+    old = signal.signal(signal.SIGALRM, _alarm)
+    signal.alarm(LIMIT_S)
+    try:
+        rec = classify_record(atoms, params)
+    except _TimeLimit as e:
+        rec = {"n": len(atoms), "error": "TimeLimit: %s" % e, "cls": "", "cls_again": "", "cls_hist": "", "cls_same_object": "", "params_untouched": True,
+               "untouched": True, "has_cell": False, "basis": [], "outliers": [], "region_known": False, "cov_num": 1, "cov_den": 2, "dim_wrapped": -7,
+               "region": {"has": False, "nbasis": 0, "is2d": False, "nconn": 0}}
+    finally:
+        signal.alarm(0)
+        signal.signal(signal.SIGALRM, old)
     rec.update({"kind": kind, "desc": desc, "params": {k: str(v) for k, v in params.items()}})
     return rec
 
